@@ -217,6 +217,9 @@ func refResponse(sc *Scenario, view *BackendView, resp *builtResponse) (msgs []p
 	default:
 		comp = resp.Header.Get("Content-Encoding")
 	}
+	if comp == "identity" {
+		comp = ""
+	}
 	clOK := true
 	if resp.CL != nil && *resp.CL != len(resp.Body) {
 		clOK = false
@@ -481,6 +484,9 @@ func checkC09(sc *Scenario) *CheckResult {
 		var all []proto.Message
 		frames, _ := parseFrames(resp.Body)
 		comp := resp.Header.Get("Grpc-Encoding") + resp.Header.Get("Connect-Content-Encoding")
+		if comp == "identity" {
+			comp = ""
+		}
 		for _, fr := range frames {
 			if fr.Flags&^1 != 0 {
 				break // end frame (or invalid): nothing behind it counts
